@@ -46,15 +46,41 @@ def graph(F):
     return roots, F.callgraph_from(roots)
 
 
+def uniq_defs(b, l):
+    """Live whole-local definitions, textually identical ones (the copies jump threading makes of a shared tail) counted once."""
+    out, seen = [], set()
+    for d in b.whole_defs(l):
+        if d[0] not in b.live:
+            continue
+        x = d[3]
+        key = repr(x.get('rv')) if d[2] == 'assign' else repr((callee_name(x), x.get('args')))
+        if key in seen:
+            continue
+        seen.add(key)
+        out.append(d)
+    return out
+
+
 def norm_place(b, p):
     """The place an operand really reads: copies / moves of the base local, `&x` followed by `*`, and the selection of a field
     of a tuple / closure environment / struct built in this body are folded (`(*env.0)` with `env = closure(&len)` is `len`)."""
-    for _ in range(16):
+    for _ in range(24):
         proj = list(place_proj(p))
-        ds = [d for d in b.whole_defs(p['l']) if d[0] in b.live]
+        ds = uniq_defs(b, p['l'])
+        if len(ds) == 1 and ds[0][2] == 'call' and re.search(r'as std::ops::Try>::branch$', callee_name(ds[0][3]) or '') and ds[0][3]['args'] \
+                and len(proj) >= 2 and isinstance(proj[0], dict) and proj[0].get('d') == 'Continue' and op_place(ds[0][3]['args'][0]) is not None:
+            # `(branch(x) as Continue).0` is the Ok / Some payload of x
+            q = op_place(ds[0][3]['args'][0])
+            ty_ = b.local_ty(q['l']) or ''
+            var_ = 'Ok' if ty_.startswith('std::result::Result<') else 'Some'
+            p = {'l': q['l'], 'p': list(place_proj(q)) + [{'d': var_, 'vi': 0 if var_ == 'Ok' else 1}] + proj[1:]}
+            continue
         if len(ds) != 1 or ds[0][2] != 'assign':
             break
         rv = ds[0][3]['rv']
+        if rv['k'] == 'agg' and rv.get('agg') == 'adt' and proj and isinstance(proj[0], dict) and 'd' in proj[0] and proj[0]['d'] == rv.get('variant'):
+            proj = proj[1:]     # downcast to the variant the value was built with
+            p = {'l': p['l'], 'p': proj}
         if rv['k'] == 'use' and op_place(rv['op']) is not None:
             q = op_place(rv['op'])
             p = {'l': q['l'], 'p': list(place_proj(q)) + proj}
@@ -85,11 +111,23 @@ def ub_operand(b, op, depth=0):
     if place_proj(p):
         p = norm_place(b, p)
     if place_proj(p):
-        return varint_component(b, p)
+        vc = varint_component(b, p)
+        if vc is not None:
+            return vc
+        pj = list(place_proj(p))
+        if len(pj) == 1 and isinstance(pj[0], dict) and str(pj[0].get('f')) == '0':
+            dq_ = uniq_defs(b, p['l'])
+            if len(dq_) == 1 and dq_[0][2] == 'assign' and dq_[0][3]['rv']['k'] == 'bin' and dq_[0][3]['rv']['op'] == 'AddWithOverflow':
+                ua_, uc_ = ub_operand(b, dq_[0][3]['rv']['a'], depth + 1), ub_operand(b, dq_[0][3]['rv']['b'], depth + 1)
+                return ua_ + uc_ if ua_ is not None and uc_ is not None else None
+        # the payload of an Option / Result local that is assigned on several branches (`Some(a + b)` here, `None` there):
+        # the largest payload of the definitions that build the variant read
+        r = ub_variant_payload(b, p, depth)
+        return None if r in (None, 'never') else r
     ty = b.local_ty(p['l'])
     width = {'u8': 8, 'u16': 16, 'u32': 32, 'u64': 64, 'usize': 64}.get(ty)
     best = (1 << width) - 1 if width else None
-    ds = [d for d in b.whole_defs(p['l']) if d[0] in b.live]
+    ds = uniq_defs(b, p['l'])
     if len(ds) > 1 and best is not None:
         # `let mut len = base; if .. { len += c }`: every definition is a base value or one increment of the variable itself by
         # a constant, none of them inside a loop: bound = largest base + sum of the increments
@@ -199,6 +237,56 @@ def ub_operand(b, op, depth=0):
                 u_ = ub_operand(b, d[3]['args'][0], depth + 1) if d[3].get('args') else None
                 w_ = (1 << {'u8': 8, 'u16': 16, 'u32': 32}[m_.group(1)]) - 1
                 best = min(x for x in (best, u_, w_) if x is not None)
+    return best
+
+
+def ub_variant_payload(b, p, depth):
+    """Upper bound of `(x as V).0...` where x is assigned on several branches: over the definitions that build variant V
+    ('never' when none does, None when a definition cannot be interpreted)."""
+    proj = list(place_proj(p))
+    if depth > 8 or not proj or not (isinstance(proj[0], dict) and 'd' in proj[0]):
+        return None
+    best = 'never'
+    for d in uniq_defs(b, p['l']):
+        if d[2] == 'call':
+            nm = callee_name(d[3]) or ''
+            if re.search(r'::from_residual$', nm) and proj[0]['d'] in ('Ok', 'Some'):
+                continue        # `?` re-raising: builds Err / None
+            return None
+        rv = d[3]['rv']
+        src = rv
+        if rv['k'] == 'use' and op_place(rv['op']) is not None and not place_proj(op_place(rv['op'])):
+            d2 = uniq_defs(b, op_place(rv['op'])['l'])
+            if len(d2) != 1 or d2[0][2] != 'assign':
+                r = ub_variant_payload(b, {'l': op_place(rv['op'])['l'], 'p': proj}, depth + 1)
+                if r is None:
+                    return None
+                if r != 'never':
+                    best = r if best == 'never' else max(best, r)
+                continue
+            src = d2[0][3]['rv']
+        if src['k'] != 'agg' or src.get('agg') != 'adt':
+            return None
+        if src.get('variant') != proj[0]['d']:
+            continue
+        if len(proj) < 2 or not src.get('fields'):
+            return None
+        fop = src['fields'][0]
+        q = op_place(fop)
+        if q is None:
+            u = const_val(fop) if len(proj) == 2 else None
+        else:
+            np_ = norm_place(b, {'l': q['l'], 'p': list(place_proj(q)) + proj[2:]})
+            if place_proj(np_):
+                u = ub_variant_payload(b, np_, depth + 1)
+                if u is None:
+                    u = ub_operand(b, {'cp': np_}, depth + 1)
+            else:
+                u = ub_operand(b, {'cp': np_}, depth + 1)
+        if u is None:
+            return None
+        if u != 'never':
+            best = u if best == 'never' else max(best, u)
     return best
 
 
